@@ -3,6 +3,7 @@ Round trip, phase by phase: what each helper of `deserGraph` does on the proto w
 serializer for a serializable graph (no placeholder, no fresh graph output, no redeclaration).
 -/
 import IrVerif.Lemmas.ScopeAssoc
+import IrVerif.Lemmas.ScopePrim
 namespace IrVerif.Scope
 
 theorem name_some_of_truthy {V : Nat → ValueS} {v : Nat} (h : nameTruthy (V v).name = true) :
@@ -42,17 +43,20 @@ theorem tableOf_extend' (V : Nat → ValueS) (A B : Assoc) (P : List Nat)
 theorem rt_inputs (V : Nat → ValueS) :
     ∀ (ins : List Nat) (s : Store) (A : Assoc), RS V s A → ins.Nodup → (∀ v ∈ ins, v ∉ A.map (·.1)) →
       (∀ v ∈ ins, (V v).name ≠ none) →
-      RS V (deserInputs s (ins.map (viOf V))).1 (A ++ ins.zip (List.range' s.nv ins.length)) := by
+      RS V (deserInputs s (ins.map (viOf V))).1 (A ++ ins.zip (List.range' s.nv ins.length)) ∧
+      ∀ v ∈ ins, ((deserInputs s (ins.map (viOf V))).1.vals
+        (sig (A ++ ins.zip (List.range' s.nv ins.length)) v)).info = (V v).info.emit := by
   intro ins
   induction ins with
-  | nil => intro s A h _ _ _; simpa [deserInputs] using h
+  | nil => intro s A h _ _ _; exact ⟨by simpa [deserInputs] using h, by simp⟩
   | cons v rest ih =>
     intro s A h hnd hA hn
     simp only [List.nodup_cons] at hnd
     simp only [List.map_cons, deserInputs, List.length_cons, List.range'_succ, List.zip_cons_cons]
-    have h1 := h.alloc v { name := some (viOf V v).name, info := (viOf V v).info } (hA v (by simp))
+    have hvA := hA v (by simp)
+    have h1 := h.alloc v { name := some (viOf V v).name, info := (viOf V v).info } hvA
       (by simp [viOf, name_some_of_ne_none (hn v (by simp))])
-    have := ih (s.alloc { name := some (viOf V v).name, info := (viOf V v).info }).1 (A ++ [(v, s.nv)]) h1 hnd.2
+    obtain ⟨r, hi⟩ := ih (s.alloc { name := some (viOf V v).name, info := (viOf V v).info }).1 (A ++ [(v, s.nv)]) h1 hnd.2
       (by
         intro w hw hm
         simp only [List.map_append, List.map_cons, List.map_nil, List.mem_append, List.mem_singleton] at hm
@@ -60,7 +64,18 @@ theorem rt_inputs (V : Nat → ValueS) :
         · exact hA w (by simp [hw]) hm
         · exact hnd.1 hw)
       (fun w hw => hn w (by simp [hw]))
-    simpa [List.append_assoc] using this
+    have e : A ++ (v, s.nv) :: rest.zip (List.range' (s.nv + 1) rest.length) =
+        (A ++ [(v, s.nv)]) ++ rest.zip (List.range' (s.nv + 1) rest.length) := by simp
+    rw [e]
+    refine ⟨r, fun w hw => ?_⟩
+    simp only [List.mem_cons] at hw
+    rcases hw with rfl | hw
+    · rw [sig_append_of_mem (by simp), sig_append_single hvA]
+      have pr := deserInputs_prim (s.nv + 1) (rest.map (viOf V))
+        (s.alloc { name := some (viOf V w).name, info := (viOf V w).info }).1 (by simp)
+      rw [(pr.cell s.nv (by omega)).1]
+      simp [viOf]
+    · exact hi w hw
 
 theorem sig_zip (A : Assoc) :
     ∀ (vs ds : List Nat), vs.length = ds.length → vs.Nodup → (∀ v ∈ vs, v ∉ A.map (·.1)) →
@@ -134,6 +149,29 @@ theorem RS.same_nv {V : Nat → ValueS} {s s' : Store} {A : Assoc} (h : RS V s A
     (hn : ∀ v, (s'.vals v).name = (s.vals v).name) : RS V s' A :=
   h.step (by rw [hnv]; exact Nat.le_refl _) (fun v _ => hn v)
 
+/-- the info an initializer value of its own receives: from the tensor, then from the value_info
+    entry of its name, if any -/
+def initInfo (vi : List (Name × Info)) (k : Name) (tp : TensorP) : Info :=
+  match vi.lookup k with
+  | some i => i.orTensor (tensorInfo tp.ty tp.sh)
+  | none => tensorInfo tp.ty tp.sh
+
+theorem newInit_cell (st : Store) (vi : List (Name × Info)) (tp : TensorP) (tid : Nat) :
+    ((newInit st vi tp tid).vals st.nv).info = initInfo vi tp.name tp ∧
+    ((newInit st vi tp tid).vals st.nv).const = some tid ∧
+    (∀ d, d ≠ st.nv → (newInit st vi tp tid).vals d = st.vals d) ∧
+    (newInit st vi tp tid).tens = st.tens ∧ (newInit st vi tp tid).nt = st.nt := by
+  cases hl : vi.lookup tp.name with
+  | some i =>
+    simp only [newInit, initInfo, hl]
+    refine ⟨by simp, by simp, fun d hd => ?_, rfl, rfl⟩
+    rw [modify_vals_ne _ _ _ hd, alloc_vals]
+    simp [hd]
+  | none =>
+    simp only [newInit, initInfo, hl]
+    refine ⟨by simp, by simp, fun d hd => ?_, rfl, rfl⟩
+    rw [alloc_vals]; simp [hd]
+
 theorem rt_inits (V : Nat → ValueS) (vi : List (Name × Info)) (insL : List Nat) :
     ∀ (mk : Name × Nat → TensorP) (its : List (Name × Nat)) (s : Store) (A : Assoc) (P : List Nat),
       (∀ kv ∈ its, (mk kv).name = kv.1) → RS V s A →
@@ -148,13 +186,26 @@ theorem rt_inits (V : Nat → ValueS) (vi : List (Name × Info)) (insL : List Na
         RS V (deserInits s (tableOf V A P) vi (its.map mk)).1 (A ++ B) ∧
         (deserInits s (tableOf V A P) vi (its.map mk)).2.2 = its.map (fun kv => sig (A ++ B) kv.2) ∧
         B.map (·.1) = newInits insL its ∧
-        s.nv ≤ (deserInits s (tableOf V A P) vi (its.map mk)).1.nv := by
+        s.nv ≤ (deserInits s (tableOf V A P) vi (its.map mk)).1.nv ∧
+        (∀ kv ∈ its, kv.2 ∉ insL →
+          ((deserInits s (tableOf V A P) vi (its.map mk)).1.vals (sig (A ++ B) kv.2)).info = initInfo vi kv.1 (mk kv)) ∧
+        (∀ kv ∈ its, ∃ t', ((deserInits s (tableOf V A P) vi (its.map mk)).1.vals (sig (A ++ B) kv.2)).const = some t' ∧
+          t' < (deserInits s (tableOf V A P) vi (its.map mk)).1.nt ∧
+          (deserInits s (tableOf V A P) vi (its.map mk)).1.tens t' =
+            { name := some kv.1, data := (mk kv).data, ty := (mk kv).ty, sh := (mk kv).sh }) ∧
+        (∀ d, d < s.nv → ((deserInits s (tableOf V A P) vi (its.map mk)).1.vals d).info = (s.vals d).info) ∧
+        (∀ e ∈ B, s.nv ≤ e.2) ∧
+        (∀ d, d < s.nv → (∀ kv ∈ its, kv.2 ∈ insL → sig A kv.2 ≠ d) →
+          ((deserInits s (tableOf V A P) vi (its.map mk)).1.vals d).const = (s.vals d).const) ∧
+        (∀ t, t < s.nt → (deserInits s (tableOf V A P) vi (its.map mk)).1.tens t = s.tens t) ∧
+        s.nt ≤ (deserInits s (tableOf V A P) vi (its.map mk)).1.nt := by
   intro mk its
   induction its with
   | nil =>
     intro s A P _ h _ _ _ _ _ _
     exact ⟨[], by simp [deserInits, newInits], by simpa [deserInits] using h, by simp [deserInits],
-      by simp [newInits], by simp [deserInits]⟩
+      by simp [newInits], by simp [deserInits], by simp, by simp, fun _ _ => rfl, by simp, fun _ _ _ => rfl,
+      fun _ _ => rfl, Nat.le_refl _⟩
   | cons kv its ih =>
     obtain ⟨k, v⟩ := kv
     intro s A P hmk h hnames hold hnew hnd hPA hu
@@ -167,6 +218,11 @@ theorem rt_inits (V : Nat → ValueS) (vi : List (Name × Info)) (insL : List Na
     have hnmv : nm V v = k := nm_of_name hvn
     simp only [List.map_cons, List.nodup_cons] at hnd
     simp only [deserInits, hname, hk, if_false]
+    -- images of the inputs that later initializers refer to stay below `s.nv` and differ from `v`'s
+    have holdA : ∀ kv ∈ its, kv.2 ∈ insL → kv.2 ∈ A.map (·.1) := fun kv hkv hi =>
+      hPA kv.2 (hold kv (by simp [hkv]) hi) (by
+        obtain ⟨a, b⟩ := hnames kv (by simp [hkv])
+        simp [nameTruthy, a, b])
     by_cases hin : v ∈ insL
     · -- the initializer of a graph input
       have hvP := hold (k, v) (by simp) hin
@@ -175,17 +231,53 @@ theorem rt_inits (V : Nat → ValueS) (vi : List (Name × Info)) (insL : List Na
         rw [← hnmv]
         exact tableOf_lookup_mem V A P (fun a ha b hb => hu a (by simp [ha]) b (by simp [hb])) v hvP hvt
       simp only [hl]
+      have hlt := h.sig_lt hvA
       have h2 : RS V ((s.allocTensor { name := some k, data := tp.data, ty := tp.ty, sh := tp.sh }).1.modify (sig A v)
           fun c => { c with const := some s.nt }) A := by
         refine h.same_nv rfl (fun w => ?_)
         rw [modify_vals]
         split <;> rfl
       rw [newInits_cons_old hin] at hu ⊢
-      obtain ⟨B, e1, e2, e3, e4, e5⟩ := ih _ A P hmk' h2 (fun kv hkv => hnames kv (by simp [hkv]))
+      obtain ⟨B, e1, e2, e3, e4, e5, c1, c2, c3, c4, c5, c6, c7⟩ := ih _ A P hmk' h2
+        (fun kv hkv => hnames kv (by simp [hkv]))
         (fun kv hkv => hold kv (by simp [hkv])) (fun kv hkv => hnew kv (by simp [hkv])) hnd.2 hPA hu
-      refine ⟨B, e1, e2, ?_, e4, e5⟩
-      simp only [List.map_cons, e3]
-      rw [sig_append_of_mem hvA]
+      refine ⟨B, e1, e2, ?_, e4, e5, ?_, ?_, ?_, c4, ?_, ?_, ?_⟩
+      · simp only [List.map_cons, e3]
+        rw [sig_append_of_mem hvA]
+      · intro kv hkv hni
+        simp only [List.mem_cons] at hkv
+        rcases hkv with rfl | hkv
+        · exact absurd hin hni
+        · exact c1 kv hkv hni
+      · intro kv hkv
+        simp only [List.mem_cons] at hkv
+        rcases hkv with rfl | hkv
+        · refine ⟨s.nt, ?_, ?_, ?_⟩
+          · rw [sig_append_of_mem hvA]
+            rw [c5 (sig A v) hlt (fun kv hkv hi heq => by
+              have := h.sig_inj (holdA kv hkv hi) hvA heq
+              exact hnd.1 (this ▸ List.mem_map_of_mem hkv))]
+            simp
+          · have h1t : ((s.allocTensor { name := some k, data := tp.data, ty := tp.ty, sh := tp.sh }).1.modify (sig A v)
+                fun c => { c with const := some s.nt }).nt = s.nt + 1 := rfl
+            rw [h1t] at c7
+            omega
+          · rw [c6 s.nt (by simp [Store.allocTensor])]
+            simp [Store.allocTensor, Store.modify, htp]
+        · exact c2 kv hkv
+      · intro d hd
+        rw [c3 d hd, modify_vals]
+        split <;> rfl
+      · intro d hd hne
+        rw [c5 d hd (fun kv hkv hi => hne kv (by simp [hkv]) hi), modify_vals_ne _ _ _ (Ne.symm (hne (k, v) (by simp) hin))]
+        rfl
+      · intro t ht
+        rw [c6 t (by simp [Store.allocTensor]; omega)]
+        simp only [Store.allocTensor, Store.modify]
+        have : t ≠ s.nt := by omega
+        simp [this]
+      · have : s.nt ≤ s.nt + 1 := by omega
+        exact Nat.le_trans this c7
     · -- a value of its own
       obtain ⟨hvP, hvA⟩ := hnew (k, v) (by simp) hin
       rw [newInits_cons_new hin] at hu ⊢
@@ -198,7 +290,6 @@ theorem rt_inits (V : Nat → ValueS) (vi : List (Name × Info)) (insL : List Na
           rw [(name_some_of_truthy hut).1, hne, hvn]
         rw [← this]; exact huP
       simp only [hl]
-      -- the store after allocating the value (and the optional value_info overwrite)
       have h1 : RS V (s.allocTensor { name := some k, data := tp.data, ty := tp.ty, sh := tp.sh }).1 A :=
         h.same_nv rfl (fun _ => rfl)
       have h3 : RS V (newInit (s.allocTensor { name := some k, data := tp.data, ty := tp.ty, sh := tp.sh }).1 vi tp s.nt)
@@ -214,10 +305,13 @@ theorem rt_inits (V : Nat → ValueS) (vi : List (Name × Info)) (insL : List Na
       have htbl : (k, s.nv) :: tableOf V A P = tableOf V (A ++ [(v, s.nv)]) (P ++ [v]) := by
         rw [tableOf_snoc, entryOf_truthy hvt, tableOf_extend' V A _ P hPA, hnmv, sig_append_single hvA]
         rfl
+      obtain ⟨nc1, nc2, nc3, nc4, nc5⟩ := newInit_cell
+        (s.allocTensor { name := some k, data := tp.data, ty := tp.ty, sh := tp.sh }).1 vi tp s.nt
       have hnv3 := (newInit_quiet (s.allocTensor { name := some k, data := tp.data, ty := tp.ty, sh := tp.sh }).1 vi tp
         s.nt).2
+      have h0 : (s.allocTensor { name := some k, data := tp.data, ty := tp.ty, sh := tp.sh }).1.nv = s.nv := rfl
       rw [htbl]
-      obtain ⟨B, e1, e2, e3, e4, e5⟩ := ih _ (A ++ [(v, s.nv)]) (P ++ [v]) hmk' h3
+      obtain ⟨B, e1, e2, e3, e4, e5, c1, c2, c3, c4, c5, c6, c7⟩ := ih _ (A ++ [(v, s.nv)]) (P ++ [v]) hmk' h3
         (fun kv hkv => hnames kv (by simp [hkv]))
         (fun kv hkv hi => by simp [hold kv (by simp [hkv]) hi])
         (fun kv hkv hi => by
@@ -235,13 +329,60 @@ theorem rt_inits (V : Nat → ValueS) (vi : List (Name × Info)) (insL : List Na
           · simp [hPA w hw ht]
           · simp)
         (by simpa [List.append_assoc] using hu)
-      refine ⟨(v, s.nv) :: B, ?_, ?_, ?_, ?_, ?_⟩
+      have hassoc : A ++ (v, s.nv) :: B = (A ++ [(v, s.nv)]) ++ B := by simp
+      have hsigv : sig (A ++ [(v, s.nv)] ++ B) v = s.nv := by
+        rw [sig_append_of_mem (by simp), sig_append_single hvA]
+      -- later old initializers refer to cells below `s.nv`
+      have hne_old : ∀ kv ∈ its, kv.2 ∈ insL → sig (A ++ [(v, s.nv)]) kv.2 ≠ s.nv := by
+        intro kv hkv hi
+        rw [sig_append_of_mem (holdA kv hkv hi)]
+        have := h.sig_lt (holdA kv hkv hi)
+        omega
+      refine ⟨(v, s.nv) :: B, ?_, ?_, ?_, ?_, ?_, ?_, ?_, ?_, ?_, ?_, ?_, ?_⟩
       · simpa [List.append_assoc] using e1
       · simpa [List.append_assoc] using e2
-      · have : A ++ (v, s.nv) :: B = (A ++ [(v, s.nv)]) ++ B := by simp
-        rw [this, e3, sig_append_of_mem (by simp), sig_append_single hvA]
+      · rw [hassoc, e3, hsigv]
       · simp [e4]
-      · have h0 : (s.allocTensor { name := some k, data := tp.data, ty := tp.ty, sh := tp.sh }).1.nv = s.nv := rfl
+      · omega
+      · intro kv hkv hni
+        rw [hassoc]
+        simp only [List.mem_cons] at hkv
+        rcases hkv with rfl | hkv
+        · rw [hsigv, c3 s.nv (by omega), ← h0, nc1, hname, htp]
+        · exact c1 kv hkv hni
+      · intro kv hkv
+        rw [hassoc]
+        simp only [List.mem_cons] at hkv
+        rcases hkv with rfl | hkv
+        · refine ⟨s.nt, ?_, ?_, ?_⟩
+          · rw [hsigv, c5 s.nv (by omega) hne_old, ← h0, nc2]
+          · have h1t : (s.allocTensor { name := some k, data := tp.data, ty := tp.ty, sh := tp.sh }).1.nt = s.nt + 1 := rfl
+            have c7' := c7
+            rw [nc5, h1t] at c7'
+            omega
+          · rw [c6 s.nt (by rw [nc5]; simp [Store.allocTensor]), nc4]
+            simp [Store.allocTensor, htp]
+        · exact c2 kv hkv
+      · intro d hd
+        rw [c3 d (by omega), nc3 d (by rw [h0]; omega)]
+        rfl
+      · intro e he
+        simp only [List.mem_cons] at he
+        rcases he with rfl | he
+        · exact Nat.le_refl _
+        · have := c4 e he; omega
+      · intro d hd hne
+        rw [c5 d (by omega) (fun kv hkv hi => by
+          rw [sig_append_of_mem (holdA kv hkv hi)]
+          exact hne kv (by simp [hkv]) hi), nc3 d (by rw [h0]; omega)]
+        rfl
+      · intro t ht
+        rw [c6 t (by rw [nc5]; simp [Store.allocTensor]; omega), nc4]
+        simp only [Store.allocTensor]
+        have : t ≠ s.nt := by omega
+        simp [this]
+      · have h1t : (s.allocTensor { name := some k, data := tp.data, ty := tp.ty, sh := tp.sh }).1.nt = s.nt + 1 := rfl
+        rw [nc5, h1t] at c7
         omega
 
 /-! ### phase 3: declaring node outputs -/
@@ -257,18 +398,30 @@ theorem nameTruthy_false_of {V : Nat → ValueS} {v : Nat} (hn : (V v).name ≠ 
     subst this
     simp [nm, h]
 
+/-- the info a declared node output (or a placeholder) receives: its value_info entry, if any -/
+def declInfo (vi : List (Name × Info)) (x : Name) : Info :=
+  match vi.lookup x with
+  | some i => i
+  | none => {}
+
+theorem newNamed_cell (st : Store) (vi : List (Name × Info)) (x : Name) :
+    ((newNamed st vi x).vals st.nv).info = declInfo vi x := by
+  cases hl : vi.lookup x <;> simp [newNamed, declInfo, hl]
+
 theorem rt_declOuts (V : Nat → ValueS) (vi : List (Name × Info)) :
     ∀ (vs : List Nat) (s : Store) (A : Assoc) (P : List Nat),
       RS V s A → (∀ v ∈ vs, (V v).name ≠ none) → vs.Nodup → (∀ v ∈ vs, v ∉ P ∧ v ∉ A.map (·.1)) →
       (∀ v ∈ P, nameTruthy (V v).name = true → v ∈ A.map (·.1)) → NamesUnique V (P ++ vs) →
       ∃ (B : Assoc) (s' : Store),
         declareOutputs s (tableOf V A P) vi (vs.map (nm V)) = .ok (s', tableOf V (A ++ B) (P ++ vs)) ∧
-        RS V s' (A ++ B) ∧ B.map (·.1) = vs.filter (fun v => nameTruthy (V v).name) ∧ s.nv ≤ s'.nv := by
+        RS V s' (A ++ B) ∧ B.map (·.1) = vs.filter (fun v => nameTruthy (V v).name) ∧ s.nv ≤ s'.nv ∧
+        (∀ v ∈ vs, nameTruthy (V v).name = true → (s'.vals (sig (A ++ B) v)).info = declInfo vi (nm V v)) ∧
+        (∀ e ∈ B, s.nv ≤ e.2) := by
   intro vs
   induction vs with
   | nil =>
     intro s A P h _ _ _ _ _
-    exact ⟨[], s, by simp [declareOutputs], by simpa using h, by simp, Nat.le_refl _⟩
+    exact ⟨[], s, by simp [declareOutputs], by simpa using h, by simp, Nat.le_refl _, by simp, by simp⟩
   | cons v rest ih =>
     intro s A P h hn hnd hnew hPA hu
     simp only [List.nodup_cons] at hnd
@@ -300,7 +453,7 @@ theorem rt_declOuts (V : Nat → ValueS) (vi : List (Name × Info)) :
         rw [tableOf_snoc, entryOf_truthy ht, tableOf_extend' V A _ P hPA, sig_append_single hvA]
         rfl
       rw [htbl]
-      obtain ⟨B, s', e1, e2, e3, e4⟩ := ih (newNamed s vi (nm V v)) (A ++ [(v, s.nv)]) (P ++ [v]) h2
+      obtain ⟨B, s', e1, e2, e3, e4, e5, e6⟩ := ih (newNamed s vi (nm V v)) (A ++ [(v, s.nv)]) (P ++ [v]) h2
         (fun w hw => hn w (by simp [hw])) hnd.2
         (fun w hw => by
           obtain ⟨a, b⟩ := hnew w (by simp [hw])
@@ -311,19 +464,34 @@ theorem rt_declOuts (V : Nat → ValueS) (vi : List (Name × Info)) :
           · simp [hPA w hw ht']
           · simp)
         hu'
-      refine ⟨(v, s.nv) :: B, s', ?_, ?_, ?_, ?_⟩
+      have hq := (newNamed_quiet s vi (nm V v)).2
+      have hassoc : A ++ (v, s.nv) :: B = (A ++ [(v, s.nv)]) ++ B := by simp
+      refine ⟨(v, s.nv) :: B, s', ?_, ?_, ?_, ?_, ?_, ?_⟩
       · simpa [List.append_assoc] using e1
       · simpa [List.append_assoc] using e2
       · simp [List.filter_cons, ht, e3]
-      · have := (newNamed_quiet s vi (nm V v)).2
-        omega
+      · omega
+      · intro w hw htw
+        rw [hassoc]
+        simp only [List.mem_cons] at hw
+        rcases hw with rfl | hw
+        · rw [sig_append_of_mem (by simp), sig_append_single hvA]
+          have pr := declareOutputs_prim (s.nv + 1) vi (rest.map (nm V)) _ _ s' _ (by omega) e1
+          rw [(pr.cell s.nv (by omega)).1]
+          exact newNamed_cell s vi (nm V w)
+        · exact e5 w hw htw
+      · intro e he
+        simp only [List.mem_cons] at he
+        rcases he with rfl | he
+        · exact Nat.le_refl _
+        · have := e6 e he; omega
     · obtain ⟨hvn, hnm⟩ := nameTruthy_false_of (hn v (by simp)) ht
       simp only [hnm, if_true]
       have hfalse : nameTruthy (V v).name = false := by simpa using ht
       have htbl : tableOf V A P = tableOf V A (P ++ [v]) := by
         rw [tableOf_snoc, entryOf_falsy hfalse]; rfl
       rw [htbl]
-      obtain ⟨B, s', e1, e2, e3, e4⟩ := ih s A (P ++ [v]) h (fun w hw => hn w (by simp [hw])) hnd.2
+      obtain ⟨B, s', e1, e2, e3, e4, e5, e6⟩ := ih s A (P ++ [v]) h (fun w hw => hn w (by simp [hw])) hnd.2
         (fun w hw => by
           obtain ⟨a, b⟩ := hnew w (by simp [hw])
           simp [a, b, hrest w hw])
@@ -333,9 +501,14 @@ theorem rt_declOuts (V : Nat → ValueS) (vi : List (Name × Info)) :
           · exact hPA w hw ht'
           · exact absurd ht' ht)
         hu'
-      refine ⟨B, s', ?_, e2, ?_, e4⟩
+      refine ⟨B, s', ?_, e2, ?_, e4, ?_, e6⟩
       · simpa [List.append_assoc] using e1
       · simp [List.filter_cons, hfalse, e3]
+      · intro w hw htw
+        simp only [List.mem_cons] at hw
+        rcases hw with rfl | hw
+        · exact absurd htw ht
+        · exact e5 w hw htw
 
 theorem rt_declNodes (V : Nat → ValueS) (vi : List (Name × Info)) (lo : NodeT → List Nat) :
     ∀ (nodes : List NodeT) (nps : List NodeP) (s : Store) (A : Assoc) (P : List Nat),
@@ -346,14 +519,17 @@ theorem rt_declNodes (V : Nat → ValueS) (vi : List (Name × Info)) (lo : NodeT
       ∃ (B : Assoc) (s' : Store),
         declareNodes s (tableOf V A P) vi nps = .ok (s', tableOf V (A ++ B) (P ++ nodes.flatMap lo)) ∧
         RS V s' (A ++ B) ∧ B.map (·.1) = (nodes.flatMap lo).filter (fun v => nameTruthy (V v).name) ∧
-        s.nv ≤ s'.nv := by
+        s.nv ≤ s'.nv ∧
+        (∀ v ∈ nodes.flatMap lo, nameTruthy (V v).name = true →
+          (s'.vals (sig (A ++ B) v)).info = declInfo vi (nm V v)) ∧
+        (∀ e ∈ B, s.nv ≤ e.2) := by
   intro nodes
   induction nodes with
   | nil =>
     intro nps s A P hmk h _ _ _ _ _
     have : nps = [] := by simpa using hmk
     subst this
-    exact ⟨[], s, by simp [declareNodes], by simpa using h, by simp, Nat.le_refl _⟩
+    exact ⟨[], s, by simp [declareNodes], by simpa using h, by simp, Nat.le_refl _, by simp, by simp⟩
   | cons n rest ih =>
     intro nps s A P hmk h hn hnd hnew hPA hu
     cases nps with
@@ -363,7 +539,7 @@ theorem rt_declNodes (V : Nat → ValueS) (vi : List (Name × Info)) (lo : NodeT
     obtain ⟨hnp, hmk'⟩ := hmk
     simp only [List.flatMap_cons] at hn hnd hnew hu ⊢
     rw [List.nodup_append] at hnd
-    obtain ⟨B1, s1, e1, r1, k1, l1⟩ := rt_declOuts V vi (lo n) s A P h (fun v hv => hn v (by simp [hv])) hnd.1
+    obtain ⟨B1, s1, e1, r1, k1, l1, i1, g1⟩ := rt_declOuts V vi (lo n) s A P h (fun v hv => hn v (by simp [hv])) hnd.1
       (fun v hv => hnew v (by simp [hv])) hPA
       (fun a ha b hb => hu a (by
         simp only [List.mem_append] at ha ⊢
@@ -381,7 +557,7 @@ theorem rt_declNodes (V : Nat → ValueS) (vi : List (Name × Info)) (lo : NodeT
       rcases hv with hv | hv
       · exact .inl hv
       · rw [k1] at hv; exact .inr (List.mem_filter.mp hv).1
-    obtain ⟨B2, s2, e2, r2, k2, l2⟩ := ih nps s1 (A ++ B1) (P ++ lo n) hmk' r1
+    obtain ⟨B2, s2, e2, r2, k2, l2, i2, g2⟩ := ih nps s1 (A ++ B1) (P ++ lo n) hmk' r1
       (fun v hv => hn v (by simp [hv])) hnd.2.1
       (fun v hv => by
         obtain ⟨a, b⟩ := hnew v (by simp [hv])
@@ -399,10 +575,27 @@ theorem rt_declNodes (V : Nat → ValueS) (vi : List (Name × Info)) (lo : NodeT
           rw [k1]
           exact List.mem_filter.mpr ⟨hv, ht⟩)
       (by simpa [List.append_assoc] using hu)
-    refine ⟨B1 ++ B2, s2, ?_, ?_, ?_, Nat.le_trans l1 l2⟩
+    refine ⟨B1 ++ B2, s2, ?_, ?_, ?_, Nat.le_trans l1 l2, ?_, ?_⟩
     · simpa [List.append_assoc] using e2
     · simpa [List.append_assoc] using r2
     · simp [k1, k2, List.filter_append]
+    · intro v hv ht
+      rw [← List.append_assoc]
+      simp only [List.mem_append] at hv
+      rcases hv with hv | hv
+      · have hmem : v ∈ (A ++ B1).map (·.1) := by
+          simp only [List.map_append, List.mem_append]
+          right; rw [k1]; exact List.mem_filter.mpr ⟨hv, ht⟩
+        rw [sig_append_of_mem hmem]
+        have pr := declareNodes_prim s1.nv vi nps s1 _ s2 _ (Nat.le_refl _) e2
+        rw [(pr.cell _ (r1.sig_lt hmem)).1]
+        exact i1 v hv ht
+      · exact i2 v hv ht
+    · intro e he
+      simp only [List.mem_append] at he
+      rcases he with he | he
+      · exact g1 e he
+      · exact Nat.le_trans l1 (g2 e he)
 
 /-! ### resolving a reference through the scope stack -/
 
@@ -464,12 +657,15 @@ theorem rt_lookupOutputs (V : Nat → ValueS) (top : Table) :
       ∃ (B : Assoc) (s' : Store),
         lookupOutputs s top (vs.map (nm V)) = .ok (s', vs.map (sig (A ++ B))) ∧ RS V s' (A ++ B) ∧
         B.map (·.1) = vs.filter (fun v => !nameTruthy (V v).name) ∧ s.nv ≤ s'.nv ∧
-        (∀ v, v < s.nv → (s'.vals v) = (s.vals v)) := by
+        (∀ v, v < s.nv → (s'.vals v) = (s.vals v)) ∧
+        (∀ v ∈ vs, ¬ nameTruthy (V v).name = true → (s'.vals (sig (A ++ B) v)).info = {}) ∧
+        (∀ e ∈ B, s.nv ≤ e.2) ∧ s'.tens = s.tens ∧ s'.nt = s.nt := by
   intro vs
   induction vs with
   | nil =>
     intro s A h _ _ _ _
-    exact ⟨[], s, by simp [lookupOutputs], by simpa using h, by simp, Nat.le_refl _, fun _ _ => rfl⟩
+    exact ⟨[], s, by simp [lookupOutputs], by simpa using h, by simp, Nat.le_refl _, fun _ _ => rfl, by simp,
+      by simp, rfl, rfl⟩
   | cons v rest ih =>
     intro s A h hn hnd ht hf
     simp only [List.nodup_cons] at hnd
@@ -478,16 +674,21 @@ theorem rt_lookupOutputs (V : Nat → ValueS) (top : Table) :
     · obtain ⟨hl, hvA⟩ := ht v (by simp) htv
       have hne := (name_some_of_truthy htv).2
       simp only [hne, if_false, hl]
-      obtain ⟨B, s', e1, e2, e3, e4, e5⟩ := ih s A h (fun w hw => hn w (by simp [hw])) hnd.2
+      obtain ⟨B, s', e1, e2, e3, e4, e5, e6, e7, e8, e9⟩ := ih s A h (fun w hw => hn w (by simp [hw])) hnd.2
         (fun w hw => ht w (by simp [hw])) (fun w hw => hf w (by simp [hw]))
-      refine ⟨B, s', ?_, e2, ?_, e4, e5⟩
+      refine ⟨B, s', ?_, e2, ?_, e4, e5, ?_, e7, e8, e9⟩
       · simp [e1, sig_append_of_mem hvA]
       · simp [List.filter_cons, htv, e3]
+      · intro w hw hfw
+        simp only [List.mem_cons] at hw
+        rcases hw with rfl | hw
+        · exact absurd htv hfw
+        · exact e6 w hw hfw
     · obtain ⟨hvn, hnm⟩ := nameTruthy_false_of (hn v (by simp)) htv
       have hvA := hf v (by simp) htv
       simp only [hnm, if_true]
       have h1 := h.alloc v { name := some "" } hvA (by simp [hvn])
-      obtain ⟨B, s', e1, e2, e3, e4, e5⟩ := ih (s.alloc { name := some "" }).1 (A ++ [(v, s.nv)]) h1
+      obtain ⟨B, s', e1, e2, e3, e4, e5, e6, e7, e8, e9⟩ := ih (s.alloc { name := some "" }).1 (A ++ [(v, s.nv)]) h1
         (fun w hw => hn w (by simp [hw])) hnd.2
         (fun w hw htw => by
           obtain ⟨a, b⟩ := ht w (by simp [hw]) htw
@@ -495,9 +696,9 @@ theorem rt_lookupOutputs (V : Nat → ValueS) (top : Table) :
         (fun w hw htw => by
           have hne : w ≠ v := fun e => hnd.1 (e ▸ hw)
           simp [hf w (by simp [hw]) htw, hne])
-      refine ⟨(v, s.nv) :: B, s', ?_, ?_, ?_, ?_, ?_⟩
-      · have : A ++ (v, s.nv) :: B = (A ++ [(v, s.nv)]) ++ B := by simp
-        simp only [e1, alloc_snd, this]
+      have hassoc : A ++ (v, s.nv) :: B = (A ++ [(v, s.nv)]) ++ B := by simp
+      refine ⟨(v, s.nv) :: B, s', ?_, ?_, ?_, ?_, ?_, ?_, ?_, e8, e9⟩
+      · simp only [e1, alloc_snd, hassoc]
         rw [sig_append_of_mem (by simp), sig_append_single hvA]
       · simpa [List.append_assoc] using e2
       · have hfalse : nameTruthy (V v).name = false := by simpa using htv
@@ -505,6 +706,18 @@ theorem rt_lookupOutputs (V : Nat → ValueS) (top : Table) :
       · simp at e4; omega
       · intro w hw
         rw [e5 w (by simp; omega), alloc_vals_lt _ _ hw]
+      · intro w hw hfw
+        rw [hassoc]
+        simp only [List.mem_cons] at hw
+        rcases hw with rfl | hw
+        · rw [sig_append_of_mem (by simp), sig_append_single hvA, e5 s.nv (by simp)]
+          simp
+        · exact e6 w hw hfw
+      · intro e he
+        simp only [List.mem_cons] at he
+        rcases he with rfl | he
+        · exact Nat.le_refl _
+        · have := e7 e he; simp at this; omega
 
 /-! ### phase 5: graph outputs -/
 
@@ -513,7 +726,13 @@ theorem rt_outputs (V : Nat → ValueS) (A : Assoc) (T : Table) :
       (∀ v ∈ outs, (V v).name ≠ none ∧ T.lookup (nm V v) = some (sig A v)) →
       (deserOutputs s T (outs.map (viOf V))).2 = outs.map (sig A) ∧
       (deserOutputs s T (outs.map (viOf V))).1.nv = s.nv ∧
-      (∀ w, ((deserOutputs s T (outs.map (viOf V))).1.vals w).name = (s.vals w).name) := by
+      (∀ w, ((deserOutputs s T (outs.map (viOf V))).1.vals w).name = (s.vals w).name) ∧
+      (∀ w, (∀ v ∈ outs, sig A v ≠ w) → (deserOutputs s T (outs.map (viOf V))).1.vals w = s.vals w) ∧
+      (∀ w, ((deserOutputs s T (outs.map (viOf V))).1.vals w).const = (s.vals w).const) ∧
+      (deserOutputs s T (outs.map (viOf V))).1.tens = s.tens ∧
+      (deserOutputs s T (outs.map (viOf V))).1.nt = s.nt ∧
+      ((∀ a ∈ outs, ∀ b ∈ outs, sig A a = sig A b → (V a).info = (V b).info) →
+        ∀ v ∈ outs, ((deserOutputs s T (outs.map (viOf V))).1.vals (sig A v)).info = (V v).info.emit) := by
   intro outs
   induction outs with
   | nil => intro s _; simp [deserOutputs]
@@ -523,11 +742,25 @@ theorem rt_outputs (V : Nat → ValueS) (A : Assoc) (T : Table) :
     simp only [List.map_cons, deserOutputs]
     have : (viOf V v).name = nm V v := rfl
     simp only [this, hl]
-    obtain ⟨e1, e2, e3⟩ := ih (s.modify (sig A v) fun c => { c with info := (viOf V v).info })
+    obtain ⟨e1, e2, e3, e4, e5, e6, e7, e8⟩ := ih (s.modify (sig A v) fun c => { c with info := (viOf V v).info })
       (fun w hw => h w (by simp [hw]))
-    refine ⟨by simp [e1], by simpa using e2, fun w => ?_⟩
-    rw [e3 w, modify_vals]
-    split <;> rfl
+    refine ⟨by simp [e1], by simpa using e2, fun w => ?_, fun w hw => ?_, fun w => ?_, e6, e7, fun hinj w hw => ?_⟩
+    · rw [e3 w, modify_vals]
+      split <;> rfl
+    · rw [e4 w (fun u hu => hw u (by simp [hu])), modify_vals_ne _ _ _ (Ne.symm (hw v (by simp)))]
+    · rw [e5 w, modify_vals]
+      split <;> rfl
+    · by_cases hr : ∃ u ∈ rest, sig A u = sig A w
+      · obtain ⟨u, hu, hsu⟩ := hr
+        have := e8 (fun a ha b hb => hinj a (by simp [ha]) b (by simp [hb])) u hu
+        rw [hsu] at this
+        rw [this, hinj u (by simp [hu]) w hw hsu]
+      · have hne : ∀ u ∈ rest, sig A u ≠ sig A w := fun u hu heq => hr ⟨u, hu, heq⟩
+        rw [e4 _ hne]
+        simp only [List.mem_cons] at hw
+        rcases hw with rfl | hw
+        · simp [viOf]
+        · exact absurd rfl (hne w hw)
 
 /-! ### phase 6: the initializer dict of the new graph -/
 
